@@ -229,6 +229,7 @@ type joinFact struct {
 
 type loopCtx struct {
 	measure *Term
+	progress *Term // value at the header of the expression that `loop k increases` says grows on every iteration
 }
 
 type Event struct {
